@@ -34,8 +34,18 @@ def scenario(rng, k, tier):
         for s in ssrcs:
             L.append(f"peek 2 0 {H(s)}")
         L.append("peek 2 1 0"); L.append("nstreams 2"); L.append("heap"); L.append(f"# S {tag} {len(ssrcs)+3:x}")
+    roc_jump_at = rng.choice([2, 4, 7]) if rng.random() < 0.6 else -1
+    force = None
     for step in range(12 if tier == "quick" else 60):
         s = rng.choice(ssrcs)
+        if step == roc_jump_at and not wildcard:
+            # the application imposes a rollover counter on all three sessions; rejected packets that arrive
+            # before the next authentic one must not disturb it
+            r = (seq[s] >> 16) + rng.choice([1, 2, 5])
+            for sid in (1, 2, 3):
+                L.append(f"setroc {sid} {H(s)} {H(r)}")
+            seq[s] = (r << 16) | (seq[s] & 0xffff)
+            force = s
         rtcp = rng.random() < 0.3
         pkt = rand_rtcp(rng, s) if rtcp else rand_rtp(rng, s, seq[s] & 0xffff, ext_ok=False)
         if not rtcp: seq[s] += rng.choice([1, 1, 2])
@@ -44,10 +54,16 @@ def scenario(rng, k, tier):
         L.append(pkt_op(op, 1, pkt, cap=len(pkt) + 200, mki_index=mi)); a = len(L)
         goodlines.append((a, rtcp, len(pkt) + p.trailer(not rtcp), s))
         # rejected packets go to session 2 only, before and after the valid one
-        for _ in range(rng.choice([0, 1, 2])):
+        forced = [g for g in goodlines[:-1] if g[3] == force and not g[1]] if (force is not None and not rtcp and s == force) else []
+        for inj in range(max(rng.choice([0, 1, 2]), 1 if forced else 0)):
             snapshot("b")
             src, r_rtcp, tot, ss = rng.choice(goodlines)
             w = rng.randrange(6)
+            if forced and inj == 0:
+                # a tampered packet of this very stream right after srtp_stream_set_roc, before the first authentic one
+                src, r_rtcp, tot, ss = forced[-1]
+                w = 0
+                force = None
             if w == 0: ref = f"@{src:x}~{rng.randrange(8 * tot):x}"
             elif w == 1: ref = f"@{src:x}<{rng.randrange(0, tot):x}"
             elif w == 2: ref = hexb(rand_key(rng, rng.choice([0, 5, 12, 30, 60])))
